@@ -3175,6 +3175,7 @@ func rulePageTailBound(c *Ctx) {
 // event emitted before it ran, and the rewrite is not undone with its layer. Either Context.AddNotification stores
 // stackitem.DeepCopy(item, true), or every caller hands it such a copy.
 func ruleNotificationImmutable(c *Ctx) {
+	deepCopyPassesFlag(c)
 	fd := c.P.Func("pkg/core/interop", "Context", "AddNotification")
 	if fd == nil {
 		c.Lost("notification-immutable.anchor", "interop.Context.AddNotification not found")
@@ -10514,4 +10515,209 @@ func ruleCacheInitHeight(c *Ctx) {
 		})
 	}
 	c.Floor("uses of the state height in InitializeCache", n, 2)
+}
+
+// ruleReadOnlyRespected (C04): a notification, once emitted, is recorded as a deep copy marked read-only, and that is
+// what System.Runtime.GetNotifications hands to later code: a callee that fails and is rolled back must not have been
+// able to alter what its caller emitted. The compound types refuse changes through their own methods (Append, Remove,
+// Drop ... panic on a read-only item); an instruction that reaches into the slice an item holds - through Value() -
+// bypasses those methods and has to ask IsReadOnly() itself. Every type-switch case of execute over Array/Struct/Map
+// that changes the slice obtained from Value() in place (an indexed assignment, slices.Reverse, clear) contains the
+// read-only test.
+func ruleReadOnlyRespected(c *Ctx) {
+	fd := c.P.Func("pkg/vm", "VM", "execute")
+	if fd == nil {
+		return
+	}
+	info := fd.Pkg.TypesInfo
+	f := c.P.NewFuncCFG(fd)
+	n := 0
+	ast.Inspect(fd.Decl.Body, func(x ast.Node) bool {
+		cc, ok := x.(*ast.CaseClause)
+		if !ok || len(cc.List) == 0 {
+			return true
+		}
+		compound := false
+		for _, e := range cc.List {
+			if tv := info.Types[e]; tv.IsType() {
+				for _, nm := range []string{"Array", "Struct", "Map"} {
+					if namedTypeIs(tv.Type, "pkg/vm/stackitem", nm) {
+						compound = true
+					}
+				}
+			}
+		}
+		if !compound {
+			return true
+		}
+		// locals bound to a Value() slice in this case
+		valueLocals := map[types.Object]bool{}
+		fromValue := func(e ast.Expr) bool {
+			hit := false
+			ast.Inspect(e, func(y ast.Node) bool {
+				if call, ok := y.(*ast.CallExpr); ok {
+					if se, ok := ast.Unparen(call.Fun).(*ast.SelectorExpr); ok && se.Sel.Name == "Value" && len(call.Args) == 0 {
+						hit = true
+					}
+				}
+				if id, ok := y.(*ast.Ident); ok && valueLocals[info.ObjectOf(id)] {
+					hit = true
+				}
+				return true
+			})
+			return hit
+		}
+		var mutation token.Pos
+		what := ""
+		for _, st := range cc.Body {
+			ast.Inspect(st, func(y ast.Node) bool {
+				switch z := y.(type) {
+				case *ast.AssignStmt:
+					for i, l := range z.Lhs {
+						if id, ok := l.(*ast.Ident); ok && i < len(z.Rhs) && fromValue(z.Rhs[i]) {
+							if _, isSl := info.TypeOf(z.Rhs[i]).Underlying().(*types.Slice); isSl {
+								valueLocals[info.ObjectOf(id)] = true
+							}
+						}
+						if ix, ok := ast.Unparen(l).(*ast.IndexExpr); ok && fromValue(ix.X) {
+							if _, isSl := info.TypeOf(ix.X).Underlying().(*types.Slice); isSl && mutation == token.NoPos {
+								mutation, what = z.Pos(), "an indexed assignment into the slice from Value()"
+							}
+						}
+					}
+				case *ast.CallExpr:
+					sym := f.calleeSym(z)
+					if (strings.HasPrefix(sym, "slices.Reverse") || strings.HasPrefix(sym, "slices.Sort") || sym == "builtin.clear") && len(z.Args) > 0 && fromValue(z.Args[0]) && mutation == token.NoPos {
+						mutation, what = z.Pos(), shortSym(sym)+" over the slice from Value()"
+					}
+				}
+				return true
+			})
+		}
+		if mutation == token.NoPos {
+			return true
+		}
+		n++
+		checked := false
+		for _, st := range cc.Body {
+			ast.Inspect(st, func(y ast.Node) bool {
+				if call, ok := y.(*ast.CallExpr); ok && call.Pos() < mutation {
+					if se, ok := ast.Unparen(call.Fun).(*ast.SelectorExpr); ok && se.Sel.Name == "IsReadOnly" {
+						checked = true
+					}
+				}
+				return true
+			})
+		}
+		arm := enclosingOpcodeArm(c, fd, cc.Pos())
+		key := fmt.Sprintf("readonly-respected.%s#%d", arm, n)
+		if checked {
+			c.OK(key, c.P.Pos(mutation), "the item is asked IsReadOnly() before "+what)
+		} else {
+			c.Fail(key, c.P.Pos(mutation), fmt.Sprintf("the %s arm of execute changes a compound item in place (%s) without asking IsReadOnly(): recorded notifications are handed out read-only, and a callee that reads GetNotifications, applies %s to the arguments of an event its caller emitted and then throws is rolled back with the change in place - the transaction halts with an altered event in its application log (a reversed Transfer is not even recognised as one)", arm, what, arm))
+		}
+		return true
+	})
+	c.Floor("in-place changes of compound items in execute", n, 2)
+}
+
+// deepCopyPassesFlag (notification-immutable, C04): the deep copy that AddNotification records turns every Buffer into
+// a ByteString (asImmutable) - at every depth, or a Buffer nested in a map or an array of the event stays a shared,
+// writable item. Every recursive call of stackitem.deepCopy hands the flag it was given on, except for map keys
+// (primitive, never a Buffer).
+func deepCopyPassesFlag(c *Ctx) {
+	fd := c.P.Func("pkg/vm/stackitem", "", "deepCopy")
+	if fd == nil {
+		c.Lost("deepcopy-flag.anchor", "stackitem.deepCopy not found")
+		return
+	}
+	info := fd.Pkg.TypesInfo
+	var flag types.Object
+	for _, fl := range fd.Decl.Type.Params.List {
+		for _, nm := range fl.Names {
+			if isBoolType(info.TypeOf(fl.Type)) {
+				flag = info.ObjectOf(nm)
+			}
+		}
+	}
+	if flag == nil {
+		c.Lost("deepcopy-flag.param", "deepCopy has no boolean parameter")
+		return
+	}
+	n := 0
+	ast.Inspect(fd.Decl.Body, func(x ast.Node) bool {
+		call, ok := x.(*ast.CallExpr)
+		if !ok || calleeFunc(info, call) != fd.Obj || len(call.Args) < 3 {
+			return true
+		}
+		n++
+		key := fmt.Sprintf("deepcopy-flag#%d", n)
+		last := ast.Unparen(call.Args[len(call.Args)-1])
+		if id, ok := last.(*ast.Ident); ok && info.ObjectOf(id) == flag {
+			c.OK(key, c.P.Pos(call.Pos()), "the immutability flag is handed on")
+			return true
+		}
+		if strings.HasSuffix(types.ExprString(call.Args[0]), ".Key") {
+			c.OK(key, c.P.Pos(call.Pos()), "map key: primitive, never a Buffer")
+			return true
+		}
+		c.Fail(key, c.P.Pos(call.Pos()), fmt.Sprintf("deepCopy copies `%s` with the flag `%s` instead of the one it was given: for the copy a notification is recorded as, a Buffer at this place stays a writable Buffer shared with whoever reads GetNotifications - a callee that fails and is rolled back can still have changed the bytes of an event its caller emitted", types.ExprString(call.Args[0]), types.ExprString(last)))
+		return true
+	})
+	c.Floor("recursive calls of deepCopy", n, 3)
+}
+
+// ruleBlockTrieWritesToCache (C11, C02): the trie changes of a block are computed on a copy of the module's trie whose
+// store is the block's own cache layer: node records, counters, deactivations reach the database with the rest of
+// the block (PersistPrivate) or not at all. Left on the module's store, Flush writes them straight into the store the
+// persist timer flushes: a block that is computed and then rejected leaves its trie records behind, and a flush
+// between the computation and the commit followed by a crash leaves the records of block N under a chain at N-1. In
+// AddMPTBatch the Store field of the copy is assigned the cache parameter before PutBatch and Flush are called on it.
+func ruleBlockTrieWritesToCache(c *Ctx) {
+	fd := c.P.Func("pkg/core/stateroot", "Module", "AddMPTBatch")
+	if fd == nil {
+		c.Lost("block-trie-cache.anchor", "stateroot.Module.AddMPTBatch not found")
+		return
+	}
+	f := c.P.NewFuncCFG(fd)
+	info := f.Info
+	var cacheParam types.Object
+	for _, fl := range fd.Decl.Type.Params.List {
+		for _, nm := range fl.Names {
+			if namedTypeIs(info.TypeOf(fl.Type), "pkg/core/storage", "MemCachedStore") {
+				cacheParam = info.ObjectOf(nm)
+			}
+		}
+	}
+	if cacheParam == nil {
+		c.Lost("block-trie-cache.param", "AddMPTBatch has no *MemCachedStore parameter")
+		return
+	}
+	var assign token.Pos
+	var firstUse token.Pos
+	ast.Inspect(fd.Decl.Body, func(x ast.Node) bool {
+		switch y := x.(type) {
+		case *ast.AssignStmt:
+			for i, l := range y.Lhs {
+				if se, ok := ast.Unparen(l).(*ast.SelectorExpr); ok && se.Sel.Name == "Store" && i < len(y.Rhs) {
+					if id, ok := ast.Unparen(y.Rhs[i]).(*ast.Ident); ok && info.ObjectOf(id) == cacheParam && assign == token.NoPos {
+						assign = y.Pos()
+					}
+				}
+			}
+		case *ast.CallExpr:
+			if fn := calleeFunc(info, y); fn != nil && (fn.Name() == "PutBatch" || fn.Name() == "Flush") && firstUse == token.NoPos {
+				firstUse = y.Pos()
+			}
+		}
+		return true
+	})
+	switch {
+	case firstUse == token.NoPos:
+		c.Lost("block-trie-cache.shape", "AddMPTBatch no longer calls PutBatch/Flush")
+	case assign != token.NoPos && assign < firstUse:
+		c.OK("block-trie-cache", c.P.Pos(assign), "the block's trie copy writes into the block's cache layer")
+	default:
+		c.Fail("block-trie-cache", c.P.Pos(firstUse), "Module.AddMPTBatch applies the block's changes to a copy of the trie that still writes to the module's own store, not to the cache layer of the block it was given: the node records of a block reach the store the persist timer flushes before - or without - the block itself. A block that is computed and then rejected leaves its records behind, and a flush between computation and commit followed by a crash leaves the trie of block N under a chain at N-1 (in GC mode the next block fails with 'key not found')")
+	}
 }
